@@ -44,8 +44,21 @@ type verifAggBatch struct {
 
 func (b *verifAggBatch) n() int { return len(b.ts) }
 
+// verifC11Chain is the part of pipeline's chaining API used here; *pipeline.QueryNode
+// (batch edge) and *pipeline.FromNode (stream edge) both provide it.
+type verifC11Chain interface {
+	Count(field string) *pipeline.InfluxQLNode
+	Sum(field string) *pipeline.InfluxQLNode
+	Min(field string) *pipeline.InfluxQLNode
+	Max(field string) *pipeline.InfluxQLNode
+	First(field string) *pipeline.InfluxQLNode
+	Last(field string) *pipeline.InfluxQLNode
+	Mean(field string) *pipeline.InfluxQLNode
+	Spread(field string) *pipeline.InfluxQLNode
+}
+
 // verifC11Node builds the pipeline configuration through the real chaining methods.
-func verifC11Node(src *pipeline.QueryNode, fn int) *pipeline.InfluxQLNode {
+func verifC11Node(src verifC11Chain, fn int) *pipeline.InfluxQLNode {
 	switch fn {
 	case verifAggCount:
 		return src.Count(verifAggField)
@@ -124,16 +137,10 @@ func verifC11Feed(v *vrt.T, kn *InfluxQLNode, g *edge.ForwardReceiver, b *verifA
 	return m
 }
 
-// verifC11CheckBatch is the oracle for one batch. Conditions over several points are
-// built with vrt.And / vrt.Or (one solver query) instead of && / || (path forks).
-func verifC11CheckBatch(v *vrt.T, fn int, b *verifAggBatch, msg edge.Message, as string, pointTimes bool) {
-	n := b.n()
-	v.Observe("emitted", msg != nil)
-	if n == 0 && fn != verifAggCount && fn != verifAggSum {
-		// only count and sum are defined on empty input
-		v.Assert(msg == nil, "empty batch emits nothing")
-		return
-	}
+// verifC11ResultPoint checks what every single-point result has in common (it exists, is
+// a point carrying the batch name, the group's tags and dimensions, and a field named by
+// as()) and returns the field value by kind and the result time.
+func verifC11ResultPoint(v *vrt.T, msg edge.Message, as string) (gi int64, isI bool, gf float64, isF bool, outT int64) {
 	v.Assert(msg != nil, "batch emits a result")
 	p, ok := msg.(edge.PointMessage)
 	v.Assert(ok, "result is a point")
@@ -144,18 +151,30 @@ func verifC11CheckBatch(v *vrt.T, fn int, b *verifAggBatch, msg edge.Message, as
 	v.Assert(p.GroupID() == models.ToGroupID("m", verifC11GroupTags(), models.Dimensions{TagNames: []string{"host"}}), "result belongs to the group")
 	val, has := p.Fields()[as]
 	v.Assert(has, "result field is named by as()")
-	outT := p.Time().UnixNano()
+	outT = p.Time().UnixNano()
 	v.Observe("time", outT)
-
-	// result kind
-	gi, isI := val.(int64)
-	gf, isF := val.(float64)
+	gi, isI = val.(int64)
+	gf, isF = val.(float64)
 	if isI {
 		v.Observe("ival", gi)
 	}
 	if isF {
 		v.Observe("fval", gf)
 	}
+	return
+}
+
+// verifC11CheckBatch is the oracle for one batch. Conditions over several points are
+// built with vrt.And / vrt.Or (one solver query) instead of && / || (path forks).
+func verifC11CheckBatch(v *vrt.T, fn int, b *verifAggBatch, msg edge.Message, as string, pointTimes bool) {
+	n := b.n()
+	v.Observe("emitted", msg != nil)
+	if n == 0 && fn != verifAggCount && fn != verifAggSum {
+		// only count and sum are defined on empty input
+		v.Assert(msg == nil, "empty batch emits nothing")
+		return
+	}
+	gi, isI, gf, isF, outT := verifC11ResultPoint(v, msg, as)
 
 	// reference sums: Go wrap-around == InfluxQL int64 arithmetic; IEEE in arrival order
 	var isum int64
@@ -271,17 +290,19 @@ func verifC11CheckBatch(v *vrt.T, fn int, b *verifAggBatch, msg edge.Message, as
 	}
 }
 
-// VerifC11BatchAgg: two consecutive batches of one group through count/sum/min/max/
-// first/last/mean/spread.
-func VerifC11BatchAgg(v *vrt.T) {
+// verifC11Setup chooses function, usePointTimes and as() and creates the executing node.
+func verifC11Setup(v *vrt.T, batch bool) (fn int, as string, pointTimes bool, kn *InfluxQLNode, diag *verifNopDiag) {
 	fnLo, fnHi := v.Bound("fn_lo", 0), v.Bound("fn_hi", verifAggQuickFns-1)
-	fn := fnLo + v.Choose("fn", fnHi-fnLo+1)
-	pointTimes := v.Choose("usePointTimes", 2) == 1
+	fn = fnLo + v.Choose("fn", fnHi-fnLo+1)
+	pointTimes = v.Choose("usePointTimes", 2) == 1
 	asKind := v.Choose("as", 3)
-	maxN := [2]int{v.Bound("points1", 1), v.Bound("points", 3)} // sizes of the first / second batch
-
-	pn := verifC11Node(pipeline.VerifC11BatchSource(), fn)
-	as := verifAggNames[fn] // default: the method name
+	var pn *pipeline.InfluxQLNode
+	if batch {
+		pn = verifC11Node(pipeline.VerifC11BatchSource(), fn)
+	} else {
+		pn = verifC11Node(pipeline.VerifC11StreamSource(), fn)
+	}
+	as = verifAggNames[fn] // default: the method name
 	switch asKind {
 	case 1:
 		as = "out"
@@ -294,15 +315,84 @@ func VerifC11BatchAgg(v *vrt.T) {
 	if pointTimes {
 		pn.UsePointTimes()
 	}
-	diag := &verifNopDiag{}
+	diag = &verifNopDiag{}
 	kn, err := newInfluxQLNode(nil, pn, diag)
 	v.Assert(err == nil, "node created")
+	return
+}
+
+// VerifC11BatchAgg: two consecutive batches of one group through count/sum/min/max/
+// first/last/mean/spread.
+func VerifC11BatchAgg(v *vrt.T) {
+	fn, as, pointTimes, kn, diag := verifC11Setup(v, true)
+	maxN := [2]int{v.Bound("points1", 1), v.Bound("points", 3)} // sizes of the first / second batch
 
 	var g edge.ForwardReceiver
 	for k := 0; k < 2; k++ {
 		b := verifC11ReadBatch(v, maxN[k], verifT2020)
 		msg := verifC11Feed(v, kn, &g, b)
 		verifC11CheckBatch(v, fn, b, msg, as, pointTimes)
+		v.Assert(diag.errors == 0, "no error reported")
+	}
+	v.Reach("end")
+}
+
+// VerifC11StreamAgg: stream form. The points of one group arrive as runs of equal-time
+// points (run sizes and the field kind of each run are structural choices, times and
+// values symbolic); a run's aggregate is emitted when the first point with a different
+// time arrives, stamped with the run's time. Two runs and a terminating point.
+func VerifC11StreamAgg(v *vrt.T) {
+	fn, as, pointTimes, kn, diag := verifC11Setup(v, false)
+	maxN := [2]int{v.Bound("points1", 1), v.Bound("points", 3)} // sizes of the first / second run
+	dims := models.Dimensions{TagNames: []string{"host"}}
+	mk := func(t int64, val interface{}, i int) edge.PointMessage {
+		return edge.NewPointMessage("m", "db", "rp", dims,
+			models.Fields{verifAggField: val, "g": int64(i)},
+			models.Tags{"host": "a", "x": "p"},
+			time.Unix(0, t).UTC())
+	}
+	var g edge.ForwardReceiver
+	var prev *verifAggBatch // the run whose result is due
+	for k := 0; k < 3; k++ {
+		// run k: 1..maxN points at one symbolic time different from the previous run's
+		// (the last "run" is a single terminating point)
+		b := &verifAggBatch{}
+		n := 1
+		if k < 2 {
+			b.isInt = v.Choose("kind", 2) == 0
+			n = 1 + v.Choose("n", maxN[k])
+		}
+		b.tmax = v.Time("t", verifT2020-16, verifT2020+16).UnixNano()
+		if prev != nil {
+			v.Assume(b.tmax != prev.tmax)
+		}
+		for i := 0; i < n; i++ {
+			b.ts = append(b.ts, b.tmax)
+			var val interface{}
+			if b.isInt {
+				x := v.Int64("iv")
+				b.iv = append(b.iv, x)
+				val = x
+			} else {
+				x := v.Float64("fv")
+				verifC11Finite(v, x)
+				b.fv = append(b.fv, x)
+				val = x
+			}
+			p := mk(b.tmax, val, i)
+			if g == nil {
+				g = kn.newGroup(p)
+			}
+			msg, err := g.Point(p)
+			v.Assert(err == nil, "Point reports no error")
+			if i == 0 && prev != nil {
+				// time advanced: the previous run is emitted now
+				verifC11CheckBatch(v, fn, prev, msg, as, pointTimes)
+			} else {
+				v.Assert(msg == nil, "nothing is emitted while the time does not advance")
+			}
+		}
+		prev = b
 		v.Assert(diag.errors == 0, "no error reported")
 	}
 	v.Reach("end")
